@@ -4,8 +4,13 @@
 
 pub mod bits;
 pub mod chunk;
+pub mod colour_model;
 pub mod container;
 pub mod entropy;
+pub mod frames;
 pub mod gen;
 pub mod headers;
+pub mod icc;
+pub mod models;
+pub mod modular;
 pub mod src;
